@@ -6,7 +6,7 @@ the deterministic scheduler; variants 1-3 (intrusive/DHP, container/HP, containe
 Search: the monitor below computes the three statements of the property on the logged history of the real code
 (every variant, every case)."""
 import os, json, re
-import vcheck, conc_check
+import vcheck, conc_check, conc_windows
 
 VARIANTS = {0: "intrusive::SegmentedQueue<gc::HP> (step correspondence)", 1: "intrusive::SegmentedQueue<gc::DHP> (observable)",
             2: "container::SegmentedQueue<gc::HP> (observable)", 3: "container::SegmentedQueue<gc::DHP> (observable)"}
@@ -92,6 +92,84 @@ def gen_cases(ctx, n, tag="g", variants=(0, 0, 0, 0, 1, 2, 3)):
         sched = gen_sched(rng, nthreads, rng.below(4))
         cases.append({"id": "%s%d" % (tag, i), "cfg": [arg, rng.choice(list(variants)), 4000], "threads": threads, "sched": sched})
     return cases
+
+
+# ---------------------------------------------------------------------------------------------------------------
+# model-guided window schedules (lib/conc_windows.py) for the step-modelled variant: the victim is stalled right
+# before a cell CAS (insert / mark) or before the exchange that takes the segment-list lock (or, "all", before any of
+# its steps: between the two loads of a protect loop, between the scan of a segment and create_tail / remove_head),
+# the actor runs exactly through one of its own CAS / exchange steps or to its end, optionally a third thread runs in
+# between, then the victim gets r more steps.
+# (constructor argument, set-up operations of thread 0, threads); "E2" = enqueue whose first probe starts at cell 2,
+# "D0" = dequeue probing from cell 0, a second digit = start of the probe after create_tail / remove_head
+WINDOW_TEMPLATES = [
+    (2, "",               [["E0"], ["E0"], ["D0"]]),          # same cell: insert CAS fails; first segment created under the lock
+    (2, "E0 E0",          [["E0"], ["E0"], ["D0"]]),          # full tail segment: both need create_tail, the loser takes the 'somebody else did it' branch
+    (2, "E0 E0",          [["D0"], ["D0"], ["E0"]]),          # same cell: mark CAS fails
+    (2, "E0 E0 D0 D0",    [["D0"], ["D0"], ["E0"]]),          # exhausted only segment: remove_head races, list becomes empty, enqueue re-creates
+    (2, "E0 E0 E0 D0 D0", [["D0"], ["D0"], ["E1"]]),          # exhausted head of two segments: the loser of remove_head sees a new head
+    (2, "E0 E0 E0 D0",    [["D0", "D0"], ["D1", "D0"], ["E1", "E0"]]),
+    (2, "E0",             [["E1", "D0"], ["D1", "E0"]]),
+    (3, "E0 E0 E0 E0",    [["E0"], ["E2"], ["D0", "D0"]]),    # quasi factor 4 (argument 3 rounded up)
+    (2, "E0 E0 D0",       [["D0"], ["E0"], ["D1"]]),          # dequeue finds one marked + (soon) one empty / full cell
+    (2, "E0 E0 D0 D0",    [["E0"], ["E0"], ["D0"]]),          # tail == exhausted head: create_tail against remove_head
+]
+WINDOW_KINDS = ("cas", "xchg")
+
+
+def window_ops(txt, nv):
+    ops = []
+    for w in (txt.split() if isinstance(txt, str) else txt):
+        starts = [int(ch) for ch in w[1:]]
+        if w[0] == "E":
+            ops.append([1, nv()] + starts)
+        else:
+            ops.append([2] + starts)
+    return ops
+
+
+def gen_window_cases(ctx, model, rng, quick):
+    wdir = os.path.join(ctx.work, "wprobe")
+    os.makedirs(wdir, exist_ok=True)
+    cases = []
+    info = {"templates": len(WINDOW_TEMPLATES), "enumerated": 0, "model_probes": 0}
+    for ti, (arg, setup, tpl) in enumerate(WINDOW_TEMPLATES):
+        cfg = [arg, 0, 4000]
+        vals = [10]
+        def nv():
+            vals[0] += 1
+            return vals[0]
+        su = window_ops(setup, nv)
+        ths = [window_ops(th, nv) for th in tpl]
+        # (a) stalled before a write, actor through a write, third thread in between (thorough), r = 0..8
+        threads, sw, inf = conc_windows.windows(model, wdir, cfg, ths, setup=su, kinds=WINDOW_KINDS, max_r=8,
+                                                third=not quick and len(ths) > 2, tag="w%d" % ti)
+        # (b) stalled before ANY step, actor through a write / to its end, few r
+        _, sa, inf2 = conc_windows.windows(model, wdir, cfg, ths, setup=su, kinds=WINDOW_KINDS, stall="all",
+                                           rs=(0, 3) if quick else (0, 1, 3, 6), tag="a%d" % ti)
+        sa = [("a" + n, s) for (n, s) in sa]
+        info["enumerated"] += len(sw) + len(sa)
+        info["model_probes"] += inf["model_probes"] + inf2["model_probes"]
+        if quick:
+            sw = conc_windows.subsample(rng, sw, 26)
+            sa = conc_windows.subsample(rng, sa, 12)
+        for name, sched in sw + sa:
+            cases.append({"id": "w%d_%s" % (ti, name), "cfg": cfg, "threads": threads, "sched": sched, "window": True})
+    if not quick and len(cases) > 8000:
+        # thorough tier: the full enumeration, up to a budget (a seeded subsample beyond it; 'enumerated' says how many there are)
+        cases = conc_windows.subsample(rng, cases, 8000)
+        info["thorough_budget"] = 8000
+    info["cases"] = len(cases)
+    return cases, info
+
+
+def merge_stats(st, st2):
+    for k in ("steps", "validated", "unfinished"):
+        st[k] += st2[k]
+    st["shapes"] |= st2["shapes"]; st["nontrivial"] |= st2["nontrivial"]
+    for f in ("hist", "by_variant", "by_k"):
+        for k, v in st2[f].items():
+            st[f][k] = st[f].get(k, 0) + v
 
 
 # ---------------------------------------------------------------------------------------------------------------
@@ -198,7 +276,7 @@ def histo(ilog):
 
 # ---------------------------------------------------------------------------------------------------------------
 
-def run_batch(ctx, model, impl, cases, tag):
+def run_batch(ctx, model, impl, cases, tag, keep_logs=False):
     """-> (stats, monitor failures [(case, fails, impl lines)], divergences [(case, d)])"""
     model_cases = [c for c in cases if c["cfg"][1] == 0]
     # the real code: the cases are split over several harness processes (each has its own scheduler)
@@ -256,6 +334,8 @@ def run_batch(ctx, model, impl, cases, tag):
                 div.append((c, d))
             else:
                 st["validated"] += 1
+    if keep_logs:
+        st["logs"] = ilog
     return st, bad, div
 
 
@@ -297,6 +377,27 @@ def run(ctx):
     ncorpus = len(cases)
     cases += gen_cases(ctx, n)
     st, bad, div = run_batch(ctx, model, impl, cases, "cases")
+    # model-guided window schedules (second batch; same comparison and monitor)
+    t_w = os.times()
+    wcases, winfo = gen_window_cases(ctx, model, ctx.rng.fork(), not ctx.thorough())
+    st_w, bad_w, div_w = run_batch(ctx, model, impl, wcases, "windows", keep_logs=True)
+    t_w2 = os.times()
+    winfo["cpu_s"] = round((t_w2.user + t_w2.system + t_w2.children_user + t_w2.children_system) - (t_w.user + t_w.system + t_w.children_user + t_w.children_system), 1)
+    wstats = conc_windows.RetryStats(outcome=lambda name, a: (a[2] if name == "deq" and len(a) > 2 else ""))
+    for c in wcases:
+        i = st_w["logs"].get(c["id"])
+        if i is not None:
+            wstats.add(i["lines"], (c["cfg"][0], tuple(tuple(o[1:] if o[0] == 2 else o[2:]) for th in c["threads"] for o in th)))
+    winfo.update(wstats.summary())
+    winfo["lock_busy"] = st_w["hist"].get("lock_busy", 0)
+    winfo["validated_against_impl"] = st_w["validated"]
+    winfo["rejected_by_monitor"] = len(bad_w); winfo["diverged_from_model"] = len(div_w)
+    if bad_w or div_w or bad or div:
+        ctx.log("rejected by the monitor: %d of %d window cases, %d of %d other cases; diverged from the model: %d window cases, %d other cases" % (
+            len(bad_w), len(wcases), len(bad), len(cases), len(div_w), len(div)))
+    ctx.log("window schedules: %d cases (%d enumerated), %d with a failed CAS, %d found the lock taken, cpu %.1fs" % (
+        len(wcases), winfo["enumerated"], winfo["cases_with_failed_cas"], winfo["lock_busy"], winfo["cpu_s"]))
+    merge_stats(st, st_w); bad += bad_w; div += div_w; cases += wcases
     if bad:
         report_monitor(ctx, bad)
     elif div:
@@ -321,11 +422,12 @@ def run(ctx):
     ctx.coverage.update({
         "evaluations": len(cases), "distinct_nontrivial": len(st["nontrivial"]),
         "rule": "program x schedule pairs (2-4 threads, 1-4 enq/deq ops each, distinct values, constructor arguments 2,3,4,5,8; "
-                "uniform, bursty, one-victim-stalled and two-victims-stalled schedules from one splitmix64 stream); distinct = distinct "
+                "uniform, bursty, one-victim-stalled and two-victims-stalled schedules from one splitmix64 stream) plus model-guided window schedules on templates with a set-up prefix (full / exhausted segments; see window_schedules); distinct = distinct "
                 "(variant, event log); non-trivial = at least one failed CAS on a cell or one exchange that found the segment-list lock taken",
         "distinct_event_logs": len(st["shapes"]), "impl_steps_compared": st["steps"], "diverged": len(div), "corpus_cases": ncorpus,
         "traces_validated_against_impl": st["validated"], "model_cases": nmodel, "monitor_cases": len(cases), "monitor_failures": len(bad),
         "unfinished_cases": st["unfinished"],
+        "window_schedules": winfo,
         "histogram": st["hist"], "cases_by_variant": {VARIANTS[k]: v for k, v in sorted(st["by_variant"].items())}, "cases_by_quasi_factor": st["by_k"],
         "samples": cases[ncorpus:ncorpus + 2] if len(cases) > ncorpus else cases[:1],
         "modelled": "cds::intrusive::SegmentedQueue<gc::HP>: enqueue, dequeue/do_dequeue, segment_list::{head,tail,create_tail,remove_head}, HP guard traffic, item counter, spin lock",
